@@ -155,6 +155,26 @@ Definition c4_pleaf (recon : bool) (kid : N) (st : c4_pst) : c4_pst :=
        mkC4pst (c4ps_vis st) seen' (c4ps_pages st + 1) (c4ps_copies st + 1) (c4ps_skipped st) (c4ps_calls st)
                (c4ps_nodes st) (c4ps_maxlevel st).
 
+(* the loop over /Kids of one node; `rec` is the recursive call for an interior kid *)
+Fixpoint c4_pkids (rec : N -> c4_pst -> c4_pres * c4_pst) (g : list (N * c4_pnode)) (recon : bool) (l : list N) (st : c4_pst)
+  : c4_pres * c4_pst :=
+  match l with
+  | [] => (C4pOk, st)
+  | k :: l' =>
+    match (if k =? 0 then None else c4_find g k) with
+    | None => c4_pkids rec g recon l'
+                (mkC4pst (c4ps_vis st) (c4ps_seen st) (c4ps_pages st) (c4ps_copies st)
+                         (c4ps_skipped st + 1) (c4ps_calls st) (c4ps_nodes st) (c4ps_maxlevel st))
+    | Some kn =>
+      if c4p_interior kn
+      then match rec k st with
+           | (C4pOk, st') => c4_pkids rec g recon l' st'
+           | r => r
+           end
+      else c4_pkids rec g recon l' (c4_pleaf recon k st)
+    end
+  end.
+
 (* level = value of the parameter at entry; the code does `if (++level > max_level)` with max_level = 100 *)
 Fixpoint c4_pwalk (fuel : nat) (g : list (N * c4_pnode)) (recon : bool) (node : N) (level : nat) (st : c4_pst)
   : c4_pres * c4_pst :=
@@ -176,22 +196,7 @@ Fixpoint c4_pwalk (fuel : nat) (g : list (N * c4_pnode)) (recon : bool) (node : 
         else
           let st := mkC4pst (c4ps_vis st) (c4ps_seen st) (c4ps_pages st) (c4ps_copies st) (c4ps_skipped st)
                             (c4ps_calls st) (node :: c4ps_nodes st) (c4ps_maxlevel st) in
-          (fix kids (l : list N) (st : c4_pst) {struct l} : c4_pres * c4_pst :=
-             match l with
-             | [] => (C4pOk, st)
-             | k :: l' =>
-               match (if k =? 0 then None else c4_find g k) with
-               | None => kids l' (mkC4pst (c4ps_vis st) (c4ps_seen st) (c4ps_pages st) (c4ps_copies st)
-                                          (c4ps_skipped st + 1) (c4ps_calls st) (c4ps_nodes st) (c4ps_maxlevel st))
-               | Some kn =>
-                 if c4p_interior kn
-                 then match c4_pwalk f g recon k (S level) st with
-                      | (C4pOk, st') => kids l' st'
-                      | r => r
-                      end
-                 else kids l' (c4_pleaf recon k st)
-               end
-             end) (c4p_kids nd) st
+          c4_pkids (fun k st => c4_pwalk f g recon k (S level) st) g recon (c4p_kids nd) st
   end.
 
 (* Pages::cache(): climb /Parent, require /Kids, traverse.  Fuel 102 is enough for every graph (level limit). *)
@@ -349,29 +354,31 @@ Record c4_ost := mkC4ost {
   c4os_warn : N;          (* "Loop detected loop in /Outlines tree" *)
   c4os_cut : N;           (* constructed at depth > 50: silently childless *)
   c4os_exp : list N;      (* nodes whose children were walked *)
-  c4os_fuel_out : bool
+  c4os_fuel_out : bool;
+  c4os_maxdepth : nat     (* largest depth at which the children of a node were walked *)
 }.
-Definition c4_ost0 : c4_ost := mkC4ost [] 0 0 0 [] false.
+Definition c4_ost0 : c4_ost := mkC4ost [] 0 0 0 [] false 0.
 
 (* QPDFOutlineObjectHelper::QPDFOutlineObjectHelper(oh, dh, depth) *)
 Fixpoint c4_ocreate (fuel : nat) (g : list (N * c4_onode)) (n : N) (depth : nat) (st : c4_ost) : c4_ost :=
   match fuel with
-  | O => mkC4ost (c4os_seen st) (c4os_made st) (c4os_warn st) (c4os_cut st) (c4os_exp st) true
+  | O => mkC4ost (c4os_seen st) (c4os_made st) (c4os_warn st) (c4os_cut st) (c4os_exp st) true (c4os_maxdepth st)
   | S f =>
-    let st := mkC4ost (c4os_seen st) (c4os_made st + 1) (c4os_warn st) (c4os_cut st) (c4os_exp st) (c4os_fuel_out st) in
+    let st := mkC4ost (c4os_seen st) (c4os_made st + 1) (c4os_warn st) (c4os_cut st) (c4os_exp st) (c4os_fuel_out st) (c4os_maxdepth st) in
     if Nat.ltb 50 depth
-    then mkC4ost (c4os_seen st) (c4os_made st) (c4os_warn st) (c4os_cut st + 1) (c4os_exp st) (c4os_fuel_out st)
+    then mkC4ost (c4os_seen st) (c4os_made st) (c4os_warn st) (c4os_cut st + 1) (c4os_exp st) (c4os_fuel_out st) (c4os_maxdepth st)
     else if c4_mem n (c4os_seen st)
-    then mkC4ost (c4os_seen st) (c4os_made st) (c4os_warn st + 1) (c4os_cut st) (c4os_exp st) (c4os_fuel_out st)
+    then mkC4ost (c4os_seen st) (c4os_made st) (c4os_warn st + 1) (c4os_cut st) (c4os_exp st) (c4os_fuel_out st) (c4os_maxdepth st)
     else
-      let st := mkC4ost (n :: c4os_seen st) (c4os_made st) (c4os_warn st) (c4os_cut st) (n :: c4os_exp st) (c4os_fuel_out st) in
+      let st := mkC4ost (n :: c4os_seen st) (c4os_made st) (c4os_warn st) (c4os_cut st) (n :: c4os_exp st) (c4os_fuel_out st)
+                        (Nat.max (c4os_maxdepth st) depth) in
       let first := match c4_find g n with Some nd => c4o_first nd | None => 0 end in
       match c4_ochain (S (length g)) g first [] [] with
-      | None => mkC4ost (c4os_seen st) (c4os_made st) (c4os_warn st) (c4os_cut st) (c4os_exp st) true
+      | None => mkC4ost (c4os_seen st) (c4os_made st) (c4os_warn st) (c4os_cut st) (c4os_exp st) true (c4os_maxdepth st)
       | Some (sibs, looped) =>
           let st := fold_left (fun st k => c4_ocreate f g k (S depth) st) sibs st in
           if looped
-          then mkC4ost (c4os_seen st) (c4os_made st) (c4os_warn st + 1) (c4os_cut st) (c4os_exp st) (c4os_fuel_out st)
+          then mkC4ost (c4os_seen st) (c4os_made st) (c4os_warn st + 1) (c4os_cut st) (c4os_exp st) (c4os_fuel_out st) (c4os_maxdepth st)
           else st
       end
   end.
@@ -379,11 +386,11 @@ Fixpoint c4_ocreate (fuel : nat) (g : list (N * c4_onode)) (n : N) (depth : nat)
 (* QPDFOutlineDocumentHelper::validate: the top-level chain from /Outlines /First (its own local seen set) *)
 Definition c4_outlines (g : list (N * c4_onode)) (first : N) : c4_ost :=
   match c4_ochain (S (length g)) g first [] [] with
-  | None => mkC4ost [] 0 0 0 [] true
+  | None => mkC4ost [] 0 0 0 [] true 0
   | Some (tops, looped) =>
       let st := fold_left (fun st k => c4_ocreate 52 g k 1 st) tops c4_ost0 in
       if looped
-      then mkC4ost (c4os_seen st) (c4os_made st) (c4os_warn st + 1) (c4os_cut st) (c4os_exp st) (c4os_fuel_out st)
+      then mkC4ost (c4os_seen st) (c4os_made st) (c4os_warn st + 1) (c4os_cut st) (c4os_exp st) (c4os_fuel_out st) (c4os_maxdepth st)
       else st
   end.
 
@@ -438,9 +445,10 @@ Record c4_fst := mkC4fst {
   c4fs_wkind : N;          (* neither field nor annotation / non-dictionary / direct object *)
   c4fs_exp : list N;       (* fields whose /Kids were iterated *)
   c4fs_maxdepth : nat;
-  c4fs_par : list (N * N)  (* /Parent entries rewritten by "encountered invalid /Parent entry ...; correcting" *)
+  c4fs_par : list (N * N); (* /Parent entries rewritten by "encountered invalid /Parent entry ...; correcting" *)
+  c4fs_fuel_out : bool
 }.
-Definition c4_fst0 : c4_fst := mkC4fst [] [] [] [] 0 0 0 0 0 [] 0 [].
+Definition c4_fst0 : c4_fst := mkC4fst [] [] [] [] 0 0 0 0 0 [] 0 [] false.
 
 Definition c4_fkids (g : list (N * c4_fnode)) (n : N) : list N :=
   match (if n =? 0 then None else c4_find g n) with
@@ -451,14 +459,15 @@ Definition c4_fkids (g : list (N * c4_fnode)) (n : N) : list N :=
 (* AcroForm::traverseField(field, parent, depth) -> (returned bool, state) *)
 Fixpoint c4_ftrav (fuel : nat) (g : list (N * c4_fnode)) (field parent : N) (depth : nat) (st : c4_fst) : bool * c4_fst :=
   match fuel with
-  | O => (false, st)
+  | O => (false, mkC4fst (c4fs_fields st) (c4fs_ann st) (c4fs_bad st) (c4fs_unnamed st) (c4fs_calls st) (c4fs_wloop st)
+                         (c4fs_wtwo st) (c4fs_wparent st) (c4fs_wkind st) (c4fs_exp st) (c4fs_maxdepth st) (c4fs_par st) true)
   | S f =>
     let st := mkC4fst (c4fs_fields st) (c4fs_ann st) (c4fs_bad st) (c4fs_unnamed st) (c4fs_calls st + 1) (c4fs_wloop st)
-                      (c4fs_wtwo st) (c4fs_wparent st) (c4fs_wkind st) (c4fs_exp st) (c4fs_maxdepth st) (c4fs_par st) in
+                      (c4fs_wtwo st) (c4fs_wparent st) (c4fs_wkind st) (c4fs_exp st) (c4fs_maxdepth st) (c4fs_par st) (c4fs_fuel_out st) in
     let wloop st := mkC4fst (c4fs_fields st) (c4fs_ann st) (c4fs_bad st) (c4fs_unnamed st) (c4fs_calls st) (c4fs_wloop st + 1)
-                      (c4fs_wtwo st) (c4fs_wparent st) (c4fs_wkind st) (c4fs_exp st) (c4fs_maxdepth st) (c4fs_par st) in
+                      (c4fs_wtwo st) (c4fs_wparent st) (c4fs_wkind st) (c4fs_exp st) (c4fs_maxdepth st) (c4fs_par st) (c4fs_fuel_out st) in
     let wkind st := mkC4fst (c4fs_fields st) (c4fs_ann st) (c4fs_bad st) (c4fs_unnamed st) (c4fs_calls st) (c4fs_wloop st)
-                      (c4fs_wtwo st) (c4fs_wparent st) (c4fs_wkind st + 1) (c4fs_exp st) (c4fs_maxdepth st) (c4fs_par st) in
+                      (c4fs_wtwo st) (c4fs_wparent st) (c4fs_wkind st + 1) (c4fs_exp st) (c4fs_maxdepth st) (c4fs_par st) (c4fs_fuel_out st) in
     if Nat.ltb 100 depth then (false, st)
     else if field =? 0 then (false, wkind st)                                  (* direct object *)
     else if field =? parent then (false, wloop st)
@@ -468,7 +477,7 @@ Fixpoint c4_ftrav (fuel : nat) (g : list (N * c4_fnode)) (field parent : N) (dep
       let bad := if c4_mem field (c4fs_unnamed st) then (if c4_mem field (c4fs_bad st) then c4fs_bad st else field :: c4fs_bad st)
                  else c4fs_bad st in
       let st := mkC4fst (c4fs_fields st) (c4fs_ann st) bad (c4fs_unnamed st) (c4fs_calls st) (c4fs_wloop st)
-                        (c4fs_wtwo st) (c4fs_wparent st) (c4fs_wkind st) (c4fs_exp st) (Nat.max (c4fs_maxdepth st) depth) (c4fs_par st) in
+                        (c4fs_wtwo st) (c4fs_wparent st) (c4fs_wkind st) (c4fs_exp st) (Nat.max (c4fs_maxdepth st) depth) (c4fs_par st) (c4fs_fuel_out st) in
       if c4_mem field (c4fs_fields st) || c4_mem field (c4fs_ann st) || c4_mem field (c4fs_bad st)
       then (false, wloop st)
       else
@@ -482,7 +491,7 @@ Fixpoint c4_ftrav (fuel : nat) (g : list (N * c4_fnode)) (field parent : N) (dep
                     then let our := if is_field then field else parent in
                          mkC4fst (if c4_mem our (c4fs_fields st) then c4fs_fields st else our :: c4fs_fields st)
                                  (field :: c4fs_ann st) (c4fs_bad st) (c4fs_unnamed st) (c4fs_calls st) (c4fs_wloop st)
-                                 (c4fs_wtwo st) (c4fs_wparent st) (c4fs_wkind st) (c4fs_exp st) (c4fs_maxdepth st) (c4fs_par st)
+                                 (c4fs_wtwo st) (c4fs_wparent st) (c4fs_wkind st) (c4fs_exp st) (c4fs_maxdepth st) (c4fs_par st) (c4fs_fuel_out st)
                     else st in
           if negb is_field then (true, st)
           else
@@ -494,27 +503,28 @@ Fixpoint c4_ftrav (fuel : nat) (g : list (N * c4_fnode)) (field parent : N) (dep
               else 3%nat in
             match pcheck with
             | 1%nat => (true, mkC4fst (c4fs_fields st) (c4fs_ann st) (c4fs_bad st) (c4fs_unnamed st) (c4fs_calls st) (c4fs_wloop st)
-                                      (c4fs_wtwo st + 1) (c4fs_wparent st) (c4fs_wkind st) (c4fs_exp st) (c4fs_maxdepth st) (c4fs_par st))
+                                      (c4fs_wtwo st + 1) (c4fs_wparent st) (c4fs_wkind st) (c4fs_exp st) (c4fs_maxdepth st) (c4fs_par st) (c4fs_fuel_out st))
             | 2%nat => (false, wloop st)
             | pc =>
               let st := match pc with
                         | 3%nat => mkC4fst (c4fs_fields st) (c4fs_ann st) (c4fs_bad st) (c4fs_unnamed st) (c4fs_calls st) (c4fs_wloop st)
                                            (c4fs_wtwo st) (c4fs_wparent st + 1) (c4fs_wkind st) (c4fs_exp st) (c4fs_maxdepth st)
                                            ((field, parent) :: c4fs_par st)          (* field.replaceKey("/Parent", parent) *)
+                                           (c4fs_fuel_out st)
                         | _ => st
                         end in
               let st := if c4f_T nd
                         then mkC4fst (if c4_mem field (c4fs_fields st) then c4fs_fields st else field :: c4fs_fields st)
                                      (c4fs_ann st) (c4fs_bad st) (c4fs_unnamed st) (c4fs_calls st) (c4fs_wloop st)
-                                     (c4fs_wtwo st) (c4fs_wparent st) (c4fs_wkind st) (c4fs_exp st) (c4fs_maxdepth st) (c4fs_par st)
+                                     (c4fs_wtwo st) (c4fs_wparent st) (c4fs_wkind st) (c4fs_exp st) (c4fs_maxdepth st) (c4fs_par st) (c4fs_fuel_out st)
                         else if negb is_annot
                         then mkC4fst (c4fs_fields st) (c4fs_ann st) (c4fs_bad st)
                                      (if c4_mem field (c4fs_unnamed st) then c4fs_unnamed st else field :: c4fs_unnamed st)
                                      (c4fs_calls st) (c4fs_wloop st)
-                                     (c4fs_wtwo st) (c4fs_wparent st) (c4fs_wkind st) (c4fs_exp st) (c4fs_maxdepth st) (c4fs_par st)
+                                     (c4fs_wtwo st) (c4fs_wparent st) (c4fs_wkind st) (c4fs_exp st) (c4fs_maxdepth st) (c4fs_par st) (c4fs_fuel_out st)
                         else st in
               let st := mkC4fst (c4fs_fields st) (c4fs_ann st) (c4fs_bad st) (c4fs_unnamed st) (c4fs_calls st) (c4fs_wloop st)
-                                (c4fs_wtwo st) (c4fs_wparent st) (c4fs_wkind st) (field :: c4fs_exp st) (c4fs_maxdepth st) (c4fs_par st) in
+                                (c4fs_wtwo st) (c4fs_wparent st) (c4fs_wkind st) (field :: c4fs_exp st) (c4fs_maxdepth st) (c4fs_par st) (c4fs_fuel_out st) in
               (true,
                fold_left (fun st kid =>
                             if c4_mem kid (c4fs_bad st) then st
@@ -522,7 +532,7 @@ Fixpoint c4_ftrav (fuel : nat) (g : list (N * c4_fnode)) (field parent : N) (dep
                                  if r then st'
                                  else mkC4fst (c4fs_fields st') (c4fs_ann st') (if c4_mem kid (c4fs_bad st') then c4fs_bad st' else kid :: c4fs_bad st')
                                               (c4fs_unnamed st') (c4fs_calls st') (c4fs_wloop st')
-                                              (c4fs_wtwo st') (c4fs_wparent st') (c4fs_wkind st') (c4fs_exp st') (c4fs_maxdepth st') (c4fs_par st'))
+                                              (c4fs_wtwo st') (c4fs_wparent st') (c4fs_wkind st') (c4fs_exp st') (c4fs_maxdepth st') (c4fs_par st') (c4fs_fuel_out st'))
                          (match c4f_kids nd with Some l => l | None => [] end) st)
             end
     end
